@@ -331,7 +331,7 @@ func (g *G) Columns() []*message.ColumnMetadata {
 				c.Keyspace, c.Table = k, fmt.Sprintf("t%d", i)
 			}
 		case 2:
-			cols[n-1].Keyspace = cols[n-1].Keyspace + "x"
+			cols[n-1].Keyspace = "other_" + fmt.Sprint(n) // (never longer than a [string] can be)
 		}
 	}
 	return cols
